@@ -303,6 +303,15 @@ pub fn run(args: &Args) -> Report {
             r
         }));
     }
+    // the address-kind dimension of the socket operations
+    if usable.contains(&0) {
+        n_cases_planned += crate::ops_addr::addr_cases().len() as u64;
+        items.push(isolated("addr-kinds", move || {
+            let mut r = Report::new();
+            crate::ops_addr::shard(&mut r, false, None);
+            r
+        }));
+    }
     // every constant the wrapper exports against the kernel's uapi values
     {
         n_cases_planned += crate::ops_flags::constant_table().len() as u64;
@@ -450,6 +459,10 @@ pub fn mixed_link_cases(ms: &[usize], first: usize) -> Vec<(Vec<usize>, Vec<u8>)
 }
 
 pub fn replay(v: &Value, r: &mut Report) {
+    if v["scenario"].as_str() == Some("addr") {
+        crate::ops_addr::replay(v, r);
+        return;
+    }
     if matches!(v["scenario"].as_str(), Some("dirfd") | Some("constants")) {
         crate::ops_flags::replay(v, r);
         return;
